@@ -17,7 +17,7 @@ REQUIRED_CLASSES = {t: ["coll:from>to", "coll:from<to", "coll:negative_loads", "
                         "bins:int", "bins:edges", "bins:interval_index", "bins:single", "bins:irregular", "value_on_edge",
                         "rebin:single_target", "rebin:same_binning", "rebin:finer", "rebin:coarser", "rebin:irregular",
                         "rebin:int_target", "rebin:integer_counts", "rebin:source_from_range_histogram", "combine:overlapping", "combine:integer_counts_first_then_fractional", "operand:series",
-                        "hist2d:int_bins", "hist2d:interval_bins", "hist2d:axis", "rebin:2d_int_target", "rebin:2d_multiindex_target", "combine:2d"]
+                        "hist2d:int_bins", "hist2d:interval_bins", "hist2d:axis", "histogram:per_group_operand_unsorted", "coll:unsigned_integer_columns", "rebin:2d_int_target", "rebin:2d_multiindex_target", "combine:2d"]
                     for t in ("quick", "thorough")}
 REQUIRED_MONITORS = ["identities:upper/lower/amplitude/mean/R", "from_to==range_mean", "scale", "shift", "range_histogram:total",
                      "histogram:total", "range_histogram==marginal", "rebin:total_conserved", "rebin:identity", "rebin:composes",
@@ -121,6 +121,14 @@ def _case_collective(ctx, rng):
           and _close(amp, np.abs(fr - to) / 2) and _close(R[up != 0], expR[up != 0], 1e-9, 1e-12))
     ctx.check("identities:upper/lower/amplitude/mean/R", ok, observed={"upper": up, "lower": lo, "amp": amp, "mean": mean, "R": R},
               expected={"from": fr, "to": to})
+    # loads stored as unsigned integers (raw converter counts): the same numbers as for the float copy
+    ctx.tag("coll:unsigned_integer_columns")
+    ui = pd.DataFrame({"from": rng.integers(0, 256, 8).astype(np.uint8), "to": rng.integers(0, 256, 8).astype(np.uint8)})
+    uf = ui.astype(float)
+    ok = all(_close(np.asarray(getattr(ui.load_collective, q), dtype=float), np.asarray(getattr(uf.load_collective, q), dtype=float))
+             for q in ("amplitude", "meanstress", "upper", "lower", "R"))
+    ctx.check("identities:upper/lower/amplitude/mean/R", ok, observed=np.asarray(ui.load_collective.amplitude), expected=np.asarray(uf.load_collective.amplitude),
+              detail={"dtype": "uint8", "from": ui["from"].to_numpy(), "to": ui["to"].to_numpy()})
     # equivalence of the two descriptions
     other = pd.DataFrame({"range": np.abs(fr - to), "mean": (fr + to) / 2.0}, index=df.index).load_collective
     ctx.check("from_to==range_mean", _close(np.asarray(other.amplitude), amp) and _close(np.asarray(other.meanstress), mean),
@@ -254,6 +262,25 @@ def _case_histogram(ctx, rng):
         exp = pd.Series(rngs, index=ids).groupby(level=0).apply(lambda g: int(np.sum((g >= redges[0]) & (g <= redges[-1]))))
         ok = _close(per.sort_index().to_numpy(), exp.sort_index().to_numpy()) and float(hax.sum()) == cov2
         ctx.check("histogram:total", ok, observed=per.to_dict(), expected=exp.to_dict(), detail="per extra level (axis)")
+        # shifting / scaling per-group histograms by one value per group (a Series over the level that is already there),
+        # the operand's rows in any order
+        ids_u = np.unique(np.asarray(ids))
+        ops = pd.Series(np.round(rng.uniform(-20, 20, len(ids_u)), 1), index=pd.Index(ids_u[rng.permutation(len(ids_u))], name="element_id"))
+        ctx.tag("histogram:per_group_operand_unsorted")
+        hl = hax.load_collective
+        m0, a0, c0 = np.asarray(hl.meanstress, dtype=float), np.asarray(hl.amplitude, dtype=float), np.asarray(hl.cycles, dtype=float)
+        el = np.asarray(hax.index.get_level_values("element_id"))
+        shd = hax.load_collective.shift(ops)
+        ok = (len(shd.meanstress) == len(m0) and _close(np.asarray(shd.meanstress, dtype=float), m0 + ops.reindex(el).to_numpy())
+              and _close(np.asarray(shd.amplitude, dtype=float), a0) and _close(np.asarray(shd.cycles, dtype=float), c0))
+        ctx.check("shift", ok, observed=np.asarray(shd.meanstress, dtype=float)[:6], expected=(m0 + ops.reindex(el).to_numpy())[:6],
+                  detail="per-group histogram, one shift per group")
+        fac = pd.Series(np.round(rng.uniform(0.5, 2.0, len(ids_u)), 2), index=pd.Index(ids_u[rng.permutation(len(ids_u))], name="element_id"))
+        scd = hax.load_collective.scale(fac)
+        ok = (len(scd.amplitude) == len(a0) and _close(np.asarray(scd.amplitude, dtype=float), a0 * fac.reindex(el).to_numpy())
+              and _close(np.asarray(scd.meanstress, dtype=float), m0 * fac.reindex(el).to_numpy()) and _close(np.asarray(scd.cycles, dtype=float), c0))
+        ctx.check("scale", ok, observed=np.asarray(scd.amplitude, dtype=float)[:6], expected=(a0 * fac.reindex(el).to_numpy())[:6],
+                  detail="per-group histogram, one factor per group")
         # summing the groups gives the histogram of the whole collective
         tot = hax.groupby(["range", "mean"], observed=False, sort=False).sum()
         ctx.check("histogram:groups_sum_to_whole", _close(tot.sort_index().to_numpy(), h2.sort_index().to_numpy()),
